@@ -98,3 +98,92 @@ def to_jax(init):
     import jax.numpy as jnp
 
     return {s: jnp.array(v) for s, v in init.items()}
+
+
+def lcm_simulate(model, params, init, V=None, seed=12345, additional_targets=None, target="simulate"):
+    """Run the real simulation.  V: list of arrays (lcm layout) or None for solve_and_simulate."""
+    import jax.numpy as jnp
+    from lcm.entry_point import get_lcm_function
+
+    sim, _ = get_lcm_function(model, targets=target, debug_mode=False)
+    kw = {}
+    if V is not None:
+        kw["vf_arr_list"] = [jnp.asarray(v) for v in V]
+    if additional_targets is not None:
+        kw["additional_targets"] = additional_targets
+    return sim(params, initial_states=to_jax(init), seed=seed, **kw)
+
+
+def synthetic_values(r, R):
+    """A fixed non-monotone synthetic value array per period, in lcm layout."""
+    out = []
+    for t in range(r.T):
+        shape = r.to_lcm_layout(R[t], t).shape
+        n = int(np.prod(shape))
+        i = np.arange(n, dtype=np.float64)
+        out.append((np.sin(1.3 * i + 0.7 * t) * 2.1 + 0.013 * i + ((i * 7) % 5) * 0.37).reshape(shape))
+    return out
+
+
+def check_rows(r, frame, Vfull, tol=1e-9):
+    """C02 row oracle.  Vfull: list of full-layout arrays 'in use' (index t -> V_t).
+    Returns (problems, n_rows_checked, n_rows_skipped_neg_inf)."""
+    probs = []
+    T = r.T
+    n = len(frame) // T
+    checked = skipped = 0
+    for t in range(T):
+        sub = frame.loc[t]
+        rows = {s: np.asarray(sub[s].values) for s in r.states}
+        Vn = Vfull[t + 1] if t < T - 1 else None
+        q, feas = r.row_objective(rows, t, Vn)
+        qq = np.where(feas, q, -np.inf).reshape(n, -1)
+        best = qq.max(axis=1)
+        val = np.asarray(sub["value"].values, dtype=float)
+        idx = []
+        for c in r.choices:
+            g = r.grids[c]
+            if c not in sub.columns:
+                probs.append((t, -1, "missing-choice-column", c))
+                return probs, checked, skipped
+            cv = np.asarray(sub[c].values, dtype=float)
+            j = np.abs(g[None, :] - cv[:, None]).argmin(axis=1)
+            off = ~(np.abs(g[j] - cv) <= 1e-9 * (1 + np.abs(cv)))
+            for i in np.where(off)[0][:3]:
+                probs.append((t, int(i), "choice-not-on-grid", f"{c}={cv[i]!r}"))
+            idx.append(j)
+        shape_c = tuple(len(r.grids[c]) for c in r.choices)
+        flat = np.ravel_multi_index(tuple(idx), shape_c) if idx else np.zeros(n, int)
+        qc = qq[np.arange(n), flat]
+        for i in range(n):
+            if not np.isfinite(best[i]):
+                skipped += 1
+                continue
+            checked += 1
+            sc = 1 + abs(best[i])
+            ch = {c: float(sub[c].values[i]) for c in r.choices}
+            st = {s: float(rows[s][i]) for s in r.states}
+            if not np.isfinite(qc[i]):
+                probs.append((t, i, "chosen-infeasible", f"state {st} choice {ch}"))
+            elif abs(qc[i] - best[i]) > tol * sc:
+                probs.append((t, i, "not-maximiser", f"state {st} choice {ch}: objective {qc[i]!r} < max {best[i]!r}"))
+            if not (abs(val[i] - best[i]) <= tol * sc):
+                probs.append((t, i, "value-mismatch", f"state {st}: value {val[i]!r} != max {best[i]!r}"))
+    return probs, checked, skipped
+
+
+def family_members(k, features=None, base=None):
+    """Canonical (normalised), deduplicated members of Family_k; returns (list of (fv, dev), n_invalid)."""
+    feats = family.FEATURES if features is None else features
+    out, seen, invalid = [], set(), 0
+    for fv in family.enumerate_family(k, base=base or family.BASE, features=feats):
+        n = family.normalise(fv)
+        if n is None:
+            invalid += 1
+            continue
+        i = fv_id(n)
+        if i in seen:
+            continue
+        seen.add(i)
+        out.append((n, sum(1 for f in n if n[f] != family.BASE[f])))
+    return out, invalid
